@@ -2,6 +2,7 @@
 use crate::common::*;
 use crate::core::*;
 use crate::explore::*;
+use crate::pdfgen::crypt::*;
 use crate::pdfgen::file::*;
 use crate::pdfgen::val::*;
 use crate::props::c03;
@@ -15,6 +16,7 @@ const FILTER: &[&str] = &["none", "flate", "hex", "a85+flate", "lzw"];
 const PAD: &[&str] = &["first-at-header-end", "first-beyond-header"];
 const NEIGH: &[&str] = &["dict", "int", "real", "str", "name", "bool", "null", "ref", "arr"];
 const XREF: &[&str] = &["one-section", "objstm-added-by-update"];
+const ENCRYPTION: &[&str] = &["none", "rc4-128", "aes-128", "aes-256"];
 
 fn neigh(i: usize, salt: i64) -> Val {
     match i {
@@ -40,8 +42,25 @@ pub fn twin_case(ch: &mut Chooser, t: &mut Tally) {
     let before = ch.pick_named("neighbour-before", NEIGH);
     let after = ch.pick_named("neighbour-after", NEIGH);
     let xref = ch.pick_named("xref", XREF);
+    let encryption = ch.pick_named("encryption", ENCRYPTION);
     let v = &cat.vals[vi].1;
     let mut fb = FileBuilder::new(b"");
+    // an encrypted document: the strings of an ordinary object are encrypted one by one, those of a compressed object
+    // are not (the object stream as a whole is)
+    let id0 = b"0123456789abcdef".to_vec();
+    let sec = match encryption {
+        0 => None,
+        1 => Some(Security::new(Variant::R3(16), b"user", b"owner", -4, &id0, true)),
+        2 => Some(Security::new(Variant::R4Aes, b"user", b"owner", -4, &id0, true)),
+        _ => Some(Security::new(Variant::R6, b"user", b"owner", -4, &id0, true)),
+    };
+    let crypt = |n: u64, g: u16, d: &[u8]| sec.as_ref().unwrap().encrypt(n, g, d);
+    let mut extra: Vec<(&str, Val)> = vec![("Root", Val::r(1))];
+    if let Some(sec) = &sec {
+        fb.crypt = Some(&crypt);
+        extra.push(("Encrypt", sec.dict()));
+        extra.push(("ID", Val::Array(vec![Val::Str(id0.clone()), Val::Str(id0.clone())])));
+    }
     let (catalog, pages) = minimal_catalog();
     fb.add(1, 0, &catalog);
     fb.add(2, 0, &pages);
@@ -79,10 +98,10 @@ pub fn twin_case(ch: &mut Chooser, t: &mut Tally) {
         extends: None,
     };
     if xref == 1 {
-        fb.finish_table(&[("Root", Val::r(1))], Split::Runs);
+        fb.finish_table(&extra, Split::Runs);
     }
     fb.add_objstm_raw(7, &raw2, &opts);
-    fb.finish_stream(&[("Root", Val::r(1))], &XrefStreamOpts::new(10));
+    fb.finish_stream(&extra, &XrefStreamOpts::new(10));
     let bytes = fb.bytes();
     t.evaluations += 1;
     t.distinct.insert(fnv(&bytes));
@@ -90,7 +109,7 @@ pub fn twin_case(ch: &mut Chooser, t: &mut Tally) {
         println!("value {}\nfile:\n{}", show_val(v), show_bytes(&bytes[..bytes.len().min(1200)]));
     }
     let res = catch(|| -> std::result::Result<(), (String, String)> {
-        let file = match FileOptions::uncached().load(bytes.clone()) {
+        let file = match FileOptions::uncached().password(if encryption == 0 { b"" } else { b"user" }).load(bytes.clone()) {
             Ok(f) => f,
             Err(e) => return Err((format!("load-error:{}", err_variant(&e)), truncate(&format!("{}", err_root(&e)), 200))),
         };
@@ -247,7 +266,7 @@ pub fn run(tier: Tier, _seed: u64, tally: &mut Tally) -> CheckMeta {
     CheckMeta {
         prop: "C11",
         level: "model_checking",
-        rule: format!("full product of {} values (C03 catalogue: every kind, all kind pairs, depth 20) x position in the object stream {{middle, only, first, last}} x trailing white-space {{LF, SP, none after the last member, CRLF}}, with <= {} deviations among object-stream filter {{flate, hex, a85+flate, lzw}}, /First beyond the header, neighbour kinds before/after (8 alternatives each), object stream added by an incremental update; each document holds the value as direct object 4 and compressed object 5 and both are resolved and compared with the producer's value. Streams: full product of /Length form {{direct, reference to a direct integer before/after the stream, reference to a compressed integer (plain / flate object stream)}} x data x EOL. Distinct by file hash.", c03::catalogue().vals.len(), bound),
+        rule: format!("full product of {} values (C03 catalogue: every kind, all kind pairs, depth 20) x position in the object stream {{middle, only, first, last}} x trailing white-space {{LF, SP, none after the last member, CRLF}}, with <= {} deviations among object-stream filter {{flate, hex, a85+flate, lzw}}, /First beyond the header, neighbour kinds before/after (8 alternatives each), object stream added by an incremental update, the document encrypted {{RC4-128, AES-128, AES-256}} (strings of the ordinary twin encrypted one by one, those of the compressed twin only as part of the object stream); each document holds the value as direct object 4 and compressed object 5 and both are resolved and compared with the producer's value. Streams: full product of /Length form {{direct, reference to a direct integer before/after the stream, reference to a compressed integer (plain / flate object stream)}} x data x EOL. Distinct by file hash.", c03::catalogue().vals.len(), bound),
         assumptions: vec!["members of an object stream are separated by white-space except after the last one".into()],
         exhaustive: true,
         bounds: json!({"deviations": bound}),
